@@ -143,6 +143,17 @@ impl Session {
         }
     }
 
+    /// The suite a setup call should use: the session's, unless the call overrides KDF and/or AEAD
+    /// (same KEM, so key bytes stay meaningful). Used to present one sender's bytes to a receiver
+    /// of another suite.
+    fn suite_for(&self, a: &Args) -> Option<Box<dyn SuiteOps>> {
+        let hexarg = |k: &str| a.call.get(k).and_then(|v| u16::from_str_radix(v, 16).ok());
+        match (hexarg("kdf"), hexarg("aead")) {
+            (None, None) => None,
+            (kdf, aead) => suite::suite_ops(self.ids.0, kdf.unwrap_or(self.ids.1), aead.unwrap_or(self.ids.2)),
+        }
+    }
+
     pub fn available(&self) -> bool {
         self.suite.is_some() && self.kem.is_some()
     }
@@ -313,7 +324,9 @@ impl Session {
             }
             "setup_s" => {
                 let mut rng = ScriptRng::new(a.b("rng").to_vec());
-                let r = self.suite.as_ref().unwrap().setup_s(&a.mode(), a.b("pkr"), a.b("info"), &mut rng);
+                let ov = self.suite_for(a);
+                let su = ov.as_ref().unwrap_or_else(|| self.suite.as_ref().unwrap());
+                let r = su.setup_s(&a.mode(), a.b("pkr"), a.b("info"), &mut rng);
                 match r {
                     Ok((enc, ctx)) => {
                         f.ok().kv("enc", out(&enc));
@@ -332,7 +345,9 @@ impl Session {
                 f.kv("rngd", rng.log()).kv("over", rng.over);
             }
             "setup_r" => {
-                let r = self.suite.as_ref().unwrap().setup_r(&a.mode(), a.b("skr"), a.b("enc"), a.b("info"));
+                let ov = self.suite_for(a);
+                let su = ov.as_ref().unwrap_or_else(|| self.suite.as_ref().unwrap());
+                let r = su.setup_r(&a.mode(), a.b("skr"), a.b("enc"), a.b("info"));
                 match r {
                     Ok(ctx) => {
                         f.ok();
